@@ -248,3 +248,41 @@ func VerifH_C07_gposmut() {
 	e2 := got.encode()
 	verifAssert(len(e2) == got.encodeLen(), "encodeLen consistent for accepted subtables")
 }
+
+// VerifH_C07_sharedtext: text conservation when the Text fields of the input glyphs are sub-slices of one
+// rune slice (each with spare capacity reaching into the following characters, as a caller converting a
+// string once would produce them): ligature substitution with ignored glyphs between the components must
+// not write through into the text of other glyphs.
+func VerifH_C07_sharedtext() {
+	meta := &LookupMetaInfo{LookupType: 4}
+	if verifBool("ignoremarks") {
+		meta.LookupFlags = IgnoreMarks
+	}
+	gd := &gdef.Table{GlyphClass: classdef.Table{1: 1, 2: 1, 3: 1, 4: 3}}
+	st := &Gsub4_1{Cov: coverage.Table{1: 0}, Repl: [][]Ligature{{{In: []glyph.ID{2, 3}, Out: 10}, {In: []glyph.ID{2}, Out: 11}}}}
+	ll := LookupList{{Meta: meta, Subtables: []Subtable{st}}}
+	n := 3 + verifChoose("len", 2)
+	all := make([]rune, n)
+	seq := make([]glyph.Info, n)
+	for i := range seq {
+		g := glyph.ID(verifU16("gid"))
+		verifAssume(g >= 1 && g <= 4)
+		all[i] = rune('a' + i)
+		seq[i] = glyph.Info{GID: g, Text: all[i : i+1], Advance: 100}
+	}
+	want := refShape(ll, gd, []LookupIndex{0}, seq) // the reference copies every Text before it starts
+	got := NewContext(ll, gd, []LookupIndex{0}).Apply(seq)
+	verifReach("applied")
+	verifAssert(sameSeq(got, want), "shared text: result equals the reference")
+	count := make([]int, n)
+	for _, g := range got {
+		for _, r := range g.Text {
+			if k := int(r - 'a'); k >= 0 && k < n {
+				count[k]++
+			}
+		}
+	}
+	for _, c := range count {
+		verifAssert(c == 1, "shared text: every input character appears exactly once in the output")
+	}
+}
